@@ -21,7 +21,6 @@ Lemma gen_required_increment_from_eq : forall nb nits pb pits fs,
   gen_required_increment_from nb nits pb pits fs = required_increment_from (nb, nits) (pb, pits) fs.
 Proof.
   intros. unfold gen_required_increment_from, required_increment_from. cbn [fst snd].
-  destruct (negb (Nat.eqb (length nits) (length pits))); [reflexivity|].
   destruct (negb (Nat.eqb (length nits) (length fs))); [reflexivity|].
   apply gen_loop_eq.
 Qed.
